@@ -45,6 +45,7 @@ Record meta := {
   m_sdo : nat;                (* suppressed_deps_opts *)
   m_ihash : ihash;            (* interface_hash *)
   m_dep_hashes : list ihash;  (* dep_hashes, aligned with m_deps *)
+  m_thash : nat;              (* trans_dep_hash: hash of the transitive import structure below the module's SCC *)
   m_ignore_all : bool;        (* ignore_all *)
   m_data_mtime : nat }.       (* data_mtime *)
 
@@ -116,6 +117,8 @@ Section Protocol.
   Variable sccs_of : list (modid * list modid) -> list (list modid).
   Variable reach : list (modid * list modid) -> modid -> modid -> bool.
   Variable sdo_of : list modid -> opts -> nat.
+  (* transitive_dep_hash of the SCC of a module in a dependency map (State.trans_dep_hash) *)
+  Variable thash : list (modid * list modid) -> modid -> nat.
   (* State.ignore_all: the module is followed silently (follow_imports=silent and not a command-line root, or a
      silent-import path).  It is a function of where the file was found / how it was reached (part of the logical
      version) and of the options. *)
@@ -154,7 +157,7 @@ Section Protocol.
              if Nat.eqb (m_stamp e) s then s_meta c m
              else Some {| m_stamp := s; m_hash := m_hash e; m_deps := m_deps e; m_supp := m_supp e;
                           m_snap := o_snap o; m_version := m_version e; m_plugin := m_plugin e; m_sdo := m_sdo e;
-                          m_ihash := m_ihash e; m_dep_hashes := m_dep_hashes e; m_ignore_all := m_ignore_all e;
+                          m_ihash := m_ihash e; m_dep_hashes := m_dep_hashes e; m_thash := m_thash e; m_ignore_all := m_ignore_all e;
                           m_data_mtime := m_data_mtime e |}
          | _, _ => s_meta c m
          end;
@@ -207,7 +210,9 @@ Section Protocol.
 
   Definition trans_ok (c : store) (o : opts) (fs : FS) (dm : list (modid * list modid)) (S : list modid) (m : modid) : bool :=
     match load_meta c o fs m with
-    | Some (_, x) => forallb (fun d => mem d S || reach dm m d) (x_deps x)
+    | Some (e, x) =>
+        (* verify_transitive_deps: "Import graph unchanged, skip this module" when the hashes are equal *)
+        Nat.eqb (thash dm m) (m_thash e) || forallb (fun d => mem d S || reach dm m d) (x_deps x)
     | None => true
     end.
 
@@ -236,7 +241,8 @@ Section Protocol.
     let old := old_indirect c o fs m in
     old ++ filter (fun d => negb (mem d (cands c o fs m s)) && negb (mem d old) && negb (Nat.eqb d m)) (r_indirect r).
 
-  Definition write_module (c0 : store) (o : opts) (fs : FS) (now : nat) (env' : penv) (R : modid -> result)
+  Definition write_module (c0 : store) (o : opts) (fs : FS) (now : nat) (dm : list (modid * list modid))
+             (env' : penv) (R : modid -> result)
              (c' : store) (m : modid) : store :=
     match lookup fs m with
     | None => c'
@@ -255,7 +261,8 @@ Section Protocol.
             let e := {| m_stamp := s; m_hash := content_of m s; m_deps := deps; m_supp := supp;
                         m_snap := o_snap o; m_version := o_version o; m_plugin := o_plugin o;
                         m_sdo := sdo_of supp o; m_ihash := r_iface r;
-                        m_dep_hashes := map (cur_hash c0 o env') deps; m_ignore_all := ign_of m s o;
+                        m_dep_hashes := map (cur_hash c0 o env') deps; m_thash := thash dm m;
+                        m_ignore_all := ign_of m s o;
                         m_data_mtime := d_mtime d |} in
             let x := {| x_deps := ind; x_dep_hashes := map (cur_hash c0 o env') ind;
                         x_errors := if ign_of m s o then [] else r_errors r |} in
@@ -271,7 +278,7 @@ Section Protocol.
     else
       let R := analyze S (src_of fs) o (ienv env) in
       let env' := env ++ map (fun m => (m, fresh_pm fs o R m)) S in
-      (env', fold_left (write_module c0 o fs now env' R) S c').
+      (env', fold_left (write_module c0 o fs now dm env' R) S c').
 
   (* ---- a whole run: load (with the mtime-update writes), SCCs in dependency order, process each *)
   Definition run (c : store) (fs : FS) (o : opts) (now : nat) : penv * store :=
